@@ -395,12 +395,15 @@ func (b *Built) build(e *Env, sp *Spec) (blobserver.Storage, Caps, reopenFn, pre
 			return nil, full, nil, nil, err
 		}
 		// re-creating over the same lower stores with a fresh memory index = "meta index lost"
-		re := func() (blobserver.Storage, error) {
-			c2 := cloneConf(conf)
-			if kv == nil && sp.str("meta", "memory") == "memory" {
-				c2["metaIndex"] = map[string]any{"type": "memory"}
+		var re reopenFn
+		if sp.str("meta", "memory") == "memory" {
+			re = func() (blobserver.Storage, error) {
+				c2 := cloneConf(conf)
+				if kv == nil {
+					c2["metaIndex"] = map[string]any{"type": "memory"}
+				}
+				return b.create("encrypt", ld, c2)
 			}
-			return b.create("encrypt", ld, c2)
 		}
 		return s, Caps{Receive: true, Remove: false}, re, nil, nil
 
